@@ -293,6 +293,11 @@ def make_builtins(I):
         items = concrete_iter(it, v)
         if items is not None and not any(is_symval(x) for x in items) and not k:
             return sorted(items)
+        if items is not None and not k and all(isinstance(x, tuple) and x and not is_symval(x[0]) for x in items):
+            firsts = [x[0] for x in items]
+            if len(set(firsts)) == len(firsts):
+                # tuples with distinct concrete first components: the order is decided by them
+                return [x for _, x in sorted(zip(firsts, items), key=lambda p: p[0])]
         raise Unsupported("sorted() of symbolic data (needs a summary)")
 
     @reg("map")
@@ -672,7 +677,7 @@ def getitem(it, obj, key, lineno=None):
             raise PyRaise("IndexError", "index out of range", lineno)
         raise Unsupported(f"index {key!r}")
     if isinstance(obj, dict):
-        if is_symval(key):
+        if is_symval(key) and not isinstance(key, (SymObj, SymSeq)):
             return adict_get(it, obj, key, lineno)
         try:
             return obj[key]
@@ -729,9 +734,9 @@ def setitem(it, obj, key, v):
             return
         raise Unsupported("symbolic index store into concrete list")
     if isinstance(obj, dict):
-        if is_symval(key):
+        if is_symval(key) and not isinstance(key, (SymObj, SymSeq)):
             raise Unsupported("symbolic key store into concrete dict")
-        obj[key] = v
+        obj[key] = v  # SymObj / SymSeq tokens are keys by identity
         return
     if isinstance(obj, SymObj) and "$setitem" in obj.fields:
         return obj.fields["$setitem"](it, obj, key, v)
